@@ -339,3 +339,55 @@ class Mitm:
 
     def changed(self, d):
         return b''.join(self.seen[d]) != b''.join(self.fwd[d])
+
+
+def burst_after_drop(enc, drop_packets=1, calls=3):
+    """F6 regression: the adversary removes the first `drop_packets` packets
+    of a burst of three channel writes and the rest reaches the receiver in
+    several data_received() calls within ONE loop iteration (what an SSH
+    tunnel does).  Returns (data the receiving application got, lost)."""
+    from harness.sshpair import Pair, NoAuthServer
+    got = []
+
+    class SS(asyncssh.SSHServerSession):
+        def exec_requested(self, command):
+            return True
+
+        def data_received(self, data, datatype):
+            got.append(data)
+
+    class Srv(NoAuthServer):
+        def session_requested(self):
+            return SS()
+
+    kw = dict(encryption_algs=[enc])
+    p = Pair(server_cls=Srv, server_kw=dict(encoding=None, **kw),
+             client_kw=kw).start()
+    try:
+        async def go():
+            chan, _ = await p.conn.create_session(asyncssh.SSHClientSession,
+                                                  command='x', encoding=None)
+            return chan
+        chan = p.run(go())
+        p.manual()
+        for i in range(3):
+            p.call(chan.write, b'line%d\n' % (i + 1))
+        sizes = [x[1] for x in p.queue['c']]
+        st = p.st
+        drop = sum(sizes[:drop_packets])
+
+        def deliver():
+            buf = b''.join(x for x in st.inq if isinstance(x, bytes))
+            st.inq.clear()
+            st.inq.append(buf[drop:])
+            st.in_bytes = len(buf) - drop
+            rest = sizes[drop_packets:]
+            per = max(1, len(rest) // calls)
+            while rest:
+                st.deliver(sum(rest[:per]))
+                rest = rest[per:]
+
+        p.loop.run_callback(deliver)
+        return b''.join(got), {k: type(v).__name__ for k, v in p.lost.items()}
+    finally:
+        p.stop()
